@@ -1,8 +1,8 @@
 /-
 Which files a batch read looks at, and in which order (C14): `BaseReader.is_valid_file`,
 `PrecomputedReader.is_valid_file`, `read_directory`, `parallel_read_archive` (zip), `read_tar` and the `limit`
-parameter, written the way `navis/io/base.py` does it (`…AW` = *as written*) next to what the docstrings promise
-(`selectSpec`). A listing is the list of entry names in the order the container yields them (`Path.glob`,
+parameter, written the way `navis/io/base.py` does it (`…AW` = *as written*, i.e. the code after the repairs of the
+integer / list-of-names `limit`) next to what the docstrings promise (`selectSpec`). A listing is the list of entry names in the order the container yields them (`Path.glob`,
 `ZipFile.filelist`, iteration over the tar file); the model never sorts – neither does navis.
 
 Import-free. Regular expressions are outside the model: a `str` limit is a plain substring.
@@ -46,46 +46,51 @@ def selectSpec (valid : String → Bool) (limit : Limit) (listing : List String)
   | .names l => files.filter (l.contains ·)
   | .substr s => files.filter (isInfix s)
 
-/-- `read_directory` as written: `files[:limit]`, `files[limit]`, substring test – and for a list of file names
-`[f for f in files if f in limit]` compares `Path` objects with strings, which never matches. -/
+/-- `read_directory` as written: `files[:limit]`, `files[limit]`, substring test, and for a list of file names
+`[f for f in files if f.name in limit or f in limit]` (a listing entry is the file's name; since the repair the `Path`
+object is no longer compared with the strings). -/
 def selectDirAW (valid : String → Bool) (limit : Limit) (listing : List String) : List String :=
   let files := listing.filter valid
   match limit with
   | .none => files
   | .int n => files.take n
   | .slice a b => (files.take b).drop a
-  | .names _ => []
+  | .names l => files.filter (l.contains ·)
   | .substr s => files.filter (isInfix s)
 
-/-- The scan loop of `parallel_read_archive` / `read_tar`: hidden entries are skipped with `continue` (no limit
-test), valid entries are appended, and `if isinstance(limit, int) and i >= limit: break` comes *after* the append,
-with `i` counting every entry of the archive. -/
+/-- `isinstance(limit, int) and len(to_read) >= limit` with `c = len(to_read)`. -/
+def full (limit : Option Nat) (c : Nat) : Bool :=
+  match limit with
+  | some n => decide (c ≥ n)
+  | none => false
+
+/-- The scan loop of `parallel_read_archive` / `read_tar` as written (since the repair of the integer `limit`): the
+loop stops *before* looking at an entry once `limit` entries have been collected (`c` = `len(to_read)`), hidden
+entries are skipped with `continue`, valid entries are appended. Entries that are not collected do not count. -/
 def scanAW (hidden valid : String → Bool) (limit : Option Nat) : Nat → List String → List String
   | _, [] => []
-  | i, f :: fs =>
-    if hidden f then scanAW hidden valid limit (i + 1) fs
-    else
-      let here := if valid f then [f] else []
-      match limit with
-      | some n => if i ≥ n then here else here ++ scanAW hidden valid limit (i + 1) fs
-      | none => here ++ scanAW hidden valid limit (i + 1) fs
+  | c, f :: fs =>
+    if full limit c then []
+    else if hidden f then scanAW hidden valid limit c fs
+    else if valid f then f :: scanAW hidden valid limit (c + 1) fs
+    else scanAW hidden valid limit c fs
 
 def intOf : Limit → Option Nat
   | .int n => some n
   | _ => none
 
-/-- `parallel_read_archive` (zip) as written; a list of names is compared with `ZipInfo` objects (never equal). -/
+/-- `parallel_read_archive` (zip) as written; a list of names is compared with `ZipInfo.filename`. -/
 def selectZipAW (hidden valid : String → Bool) (limit : Limit) (listing : List String) : List String :=
   let files := scanAW hidden valid (intOf limit) 0 listing
   match limit with
   | .none => files
   | .int _ => files
   | .slice a b => (files.take b).drop a
-  | .names _ => []
+  | .names l => files.filter (l.contains ·)
   | .substr s => files.filter (isInfix s)
 
-/-- `read_tar` as written: same scan; a list of names works here (paths are strings); the members are then read in
-archive order. -/
+/-- `read_tar` as written: same scan; the collected paths are strings and compared with the list directly; the
+members are then read in archive order. -/
 def selectTarAW (hidden valid : String → Bool) (limit : Limit) (listing : List String) : List String :=
   let files := scanAW hidden valid (intOf limit) 0 listing
   match limit with
@@ -94,5 +99,23 @@ def selectTarAW (hidden valid : String → Bool) (limit : Limit) (listing : List
   | .slice a b => (files.take b).drop a
   | .names l => files.filter (l.contains ·)
   | .substr s => files.filter (isInfix s)
+
+/- The source facts this model rests on (compared with the translator's extraction in `Props/C14.lean`):
+where the integer-`limit` test of each archive scan sits and what it tests, what the scans collect, and the membership
+test each container applies to a list of file names. -/
+namespace Src
+def archiveIntLimit : List (String × String × String) :=
+  [("parallel_read_archive", "isinstance(limit, int) and len(to_read) >= limit", "first"),
+   ("read_tar", "isinstance(limit, int) and len(to_read) >= limit", "first")]
+def dirIntLimit : String := "files[:limit]"
+def archiveCollects : List (String × String) := [("parallel_read_archive", "file"), ("read_tar", "fpath")]
+def namesLimitTest : List (String × String) :=
+  [("read_directory", "f.name in limit or f in limit"),
+   ("parallel_read_archive", "f.filename in limit or f in limit"),
+   ("read_tar", "f in limit")]
+/-- `PrecomputedReader.is_valid_file`: every container's entry object is unwrapped to its name before the tests. -/
+def preValidUnwraps : List (String × String) :=
+  [("zipfile.ZipInfo", "file.filename"), ("tarfile.TarInfo", "file.name"), ("Path", "file.name")]
+end Src
 
 end Navis.IoBatch
